@@ -272,11 +272,24 @@ def controller_probes(emus=None):
     return hs
 
 
+def arp_pair_executions(a, b, every=1, offset=0):
+    """Both instances run with the automatic arpeggio on; the observed one has more simultaneous notes of one instrument than
+    chip channels (1 chip, 8 notes struck together: notes share chip channels and the arpeggio rotates them as time passes),
+    the other one merely lets time pass in between.  When a note takes its turn depends on the observed instance's own clock only."""
+    ha = [create(a, chips=1), setting("arp", 1)] + [on(60 + k, 1, 0) for k in range(8)] + [gen(1800), gen(2600), gen(1500), gen(3100)]
+    hb = [create(b), setting("arp", 1), gen(700), gen(1300), gen(2100), gen(900), CLOSE]
+    for q, il in enumerate(interleavings([ha, hb])):
+        if q % every == offset % every:
+            yield [init(2)] + il
+
+
 def settings_executions(quick, seed):
     hs = []
     pairs = [(0, 0), (0, 2), (2, 4), (4, 5), (5, 1), (1, 8), (3, 6), (6, 3), (8, 0)] if quick else [(a, b) for a in EMUS for b in EMUS]
     for (a, b) in pairs:
         hs += list(pan_pair_executions(a, b, 200 if quick else 120, seed + 7 * a + b))
+    for (a, b) in pairs:
+        hs += list(arp_pair_executions(a, b, 9000 if quick else 1500, seed + 11 * a + b))
     rp = [(e, EMUS[(j + 3) % len(EMUS)]) for j, e in enumerate(EMUS)] if quick else [(a, b) for a in EMUS for b in EMUS]
     for (a, b) in rp:
         hs += list(recycle_executions(a, b, 4 if quick else 1, seed + a + b, pans=(PANS[(a + 1) % 5], PANS[(b + 3) % 5], 64)))
